@@ -11,8 +11,13 @@ VERIF_DIR = os.path.dirname(os.path.dirname(os.path.abspath(__file__)))
 REPO_DIR = os.environ.get('VERIF_REPO', '/repo')
 
 
+_IMPL = []
+
+
 def load_impl():
     """Put $VERIF_REPO/src first on sys.path and import the working tree's bare_script."""
+    if _IMPL:
+        return _IMPL[0]
     src = os.path.join(REPO_DIR, 'src')
     if sys.path[0] != src:
         sys.path.insert(0, src)
@@ -20,6 +25,7 @@ def load_impl():
     got = os.path.realpath(bare_script.__file__)
     if not got.startswith(os.path.realpath(src) + os.sep):
         raise HarnessError(f'bare_script imported from {got}, expected under {src}')
+    _IMPL.append(bare_script)
     return bare_script
 
 
